@@ -223,6 +223,14 @@ def greeting_rules(rep, prog, cfg):
                 ok2 = okt is not None and gcalls[0] not in reach(g.succs, [okt])
             rep.check(ok2, "C18.greeting-loop", "%s/%s Ok leaves the loop" % (cfg, name), b.loc(b.span),
                       "a successfully parsed greeting does not end the read loop")
+    # "any ACK" to the password is the incorrect-password verdict: the client sees an ACK only if the ACK line parser accepts it, so
+    # the ACK line language is the documented one (whatever command name the server puts between the braces)
+    from .C03 import grammar_rule
+    grammar_rule(rep, prog, cfg, rule="C18.verdict", only=("Error",))
+    # "however it is segmented": a greeting cut anywhere (inside `OK MPD ` too) must come back as 'need more', so every combinator of
+    # the greeting parser is the streaming one
+    from .C02 import streaming_rule
+    streaming_rule(rep, prog, cfg, rule="C18.greeting-grammar", root_names=(GREETING,), floor=2)
     # grammar clause: the greeting parser denotes exactly  "OK MPD " ⟨[^\n]+⟩ "\n"  (A10)
     from .. import grammar as G
     bs = body_by_name(prog, GREETING)
